@@ -336,26 +336,31 @@ Proof.
   cbn [zero_of]. destruct (t =? T_BOOL); [reflexivity|]. destruct (t =? T_DOUBLE); reflexivity.
 Qed.
 
-Lemma walk_unsets_ok fd o : forall l bm c,
-  walk_unsets fd o l bm c =
-  match unset_walk_bm o l bm with inr _ => None | inl us => Some (obj_tail fd c us) end.
+Lemma walk_unsets_c_ok fd o close : forall l bm c,
+  walk_unsets_c fd o close l bm c =
+  match unset_walk_bm o l bm with inr _ => None | inl us => Some (obj_mems fd c us ++ close) end.
 Proof.
   induction l as [|f l IH]; intros bm c.
-  - cbn [walk_unsets unset_walk_bm]. rewrite obj_tail_nil. reflexivity.
-  - cbn [walk_unsets unset_walk_bm].
-    assert (Emit : match walk_unsets fd o l bm true with
+  - cbn [walk_unsets_c unset_walk_bm]. destruct c; reflexivity.
+  - cbn [walk_unsets_c unset_walk_bm].
+    assert (Emit : match walk_unsets_c fd o close l bm true with
                    | Some tl => Some (sep c ++ quote_ref (f_key (fst f)) ++ 58 :: zero_text fd (snd f) ++ tl)
                    | None => None
                    end =
                    match (match unset_walk_bm o l bm with inl us => inl ((f_key (fst f), zero_of (snd f)) :: us) | inr c0 => inr c0 end)
-                   with inr _ => None | inl us => Some (obj_tail fd c us) end).
+                   with inr _ => None | inl us => Some (obj_mems fd c us ++ close) end).
     { rewrite IH. destruct (unset_walk_bm o l bm) as [us|]; [|reflexivity].
-      rewrite <- obj_tail_cons, zero_text_ok. reflexivity. }
+      rewrite <- obj_mems_cons, zero_text_ok. rewrite <- !app_assoc. cbn [app]. rewrite <- !app_assoc. reflexivity. }
     destruct (negb (bm_isset bm (f_id (fst f)))); [apply IH|].
     destruct (f_req (fst f) =? 1).
     + destruct (o_write_required o); [exact Emit | reflexivity].
     + destruct ((f_req (fst f) =? 0) && o_write_default o); [exact Emit | apply IH].
 Qed.
+
+Lemma walk_unsets_ok fd o : forall l bm c,
+  walk_unsets fd o l bm c =
+  match unset_walk_bm o l bm with inr _ => None | inl us => Some (obj_tail fd c us) end.
+Proof. intros l bm c. unfold walk_unsets. rewrite walk_unsets_c_ok. reflexivity. Qed.
 
 Lemma unset_walk_finite o : forall l p us, unset_walk o l p = inl us -> mem_finite us = true.
 Proof.
@@ -1269,3 +1274,109 @@ Proof.
   exists e. split; [reflexivity|]. split; [exact Ef|]. split; [reflexivity|]. split; [|reflexivity].
   apply model_text_parses. exact (json_ofw_bytes o v d e Hw Hdo E).
 Qed.
+
+(* ------------------------------------------------------------------ ConvertException at the root (PARTIAL) ----
+   [xwalk] is the root loop of do under ConvertException written over the DECODED fields (values by the spec functions
+   fvalw = json_ofw / jsconv, the unset scan by the bitmap): members, or the first exception field's tree with the members
+   handleUnsets appends, or an error.  [walk_fields_x_ok]: the byte loop computes exactly its text.
+   Missing for a full refinement: the identification of [xwalk] with T2JUnset.root_walkw's TExc branch (which has no unset
+   members and checks the finiteness of the members before the exception field). *)
+Inductive xres := XObj (ms : list (list Z * jexp)) | XExc (e : jexp) (us : list (list Z * jexp)) | XErr.
+
+Section ExcLoop.
+  Variable fd : Z -> list Z.
+  Variable o : Z.
+  Variable rec : tdesc -> list Z -> option (list Z * list Z).
+  Variable bx : fmeta -> bool.
+
+  Fixpoint xwalk (fs : list (fmeta * tdesc)) (vs : list (Z * tval)) (bm : list Z) : xres :=
+    match vs with
+    | [] => match unset_walk_bm o (sort_flds fs) bm with inl us => XObj us | inr _ => XErr end
+    | iv :: r =>
+      match find_field fs (fst iv) with
+      | None => if o_disallow_unknown o then XErr else xwalk fs r bm
+      | Some f =>
+        if bx (fst f) then xwalk fs r (bm_clear (fst iv) bm) else
+        match fvalw o f (snd iv) with
+        | TOk e =>
+          if jexp_finite e then
+            if negb (fst iv =? 0) then
+              match unset_walk_bm o (sort_flds fs) (bm_clear (fst iv) bm) with inl us => XExc e us | inr _ => XErr end
+            else match xwalk fs r (bm_clear (fst iv) bm) with
+                 | XObj ms => XObj ((f_key (fst f), e) :: ms)
+                 | other => other
+                 end
+          else XErr
+        | _ => XErr
+        end
+      end
+    end.
+
+  Definition xtext (c : bool) (x : xres) : option wres :=
+    match x with
+    | XObj ms => Some (WText (obj_tail fd c ms))
+    | XExc e us => Some (WExc (jexp_print fd e ++ obj_mems fd true us))
+    | XErr => None
+    end.
+
+  Lemma walk_fields_x_ok fs : forall vs fuel c bm r,
+    Forall (field_ok fd o rec bx fs) vs -> (length vs < fuel)%nat ->
+    walk_fields_x fd o rec bx fuel fs c bm
+      (flat_map (fun f => type_of (snd f) :: enc_int 2 (fst f) ++ encode (snd f)) vs ++ 0 :: r) =
+    xtext c (xwalk fs vs bm).
+  Proof.
+    induction vs as [|[id x] vs IH]; intros fuel c bm r HF Hfuel; destruct fuel as [|fuel]; try (cbn in Hfuel; lia).
+    - cbn [flat_map app walk_fields_x xwalk].
+      change (negb (valid_ttype 0)) with false. change (0 =? 0) with true. cbn iota.
+      rewrite walk_unsets_ok. destruct (unset_walk_bm o (sort_flds fs) bm); reflexivity.
+    - inversion HF as [|? ? [Hid Hx] HF']; subst. cbn [fst snd] in *.
+      cbn [flat_map walk_fields_x xwalk]. cbn [app fst snd].
+      rewrite valid_ttype_type_of. cbn [negb].
+      destruct (Z.eqb_spec (type_of x) 0) as [E0|_]; [exfalso; exact (valid_type_nonzero _ (type_of_valid x) E0)|].
+      rewrite <- !app_assoc.
+      rewrite (rd_int_sb 2 16) by (try lia; try reflexivity; exact Hid).
+      destruct (find_field fs id) as [f|] eqn:Ef.
+      + destruct (bx (fst f)).
+        * rewrite Hx. apply IH; [exact HF'|cbn in Hfuel; lia].
+        * rewrite Hx. unfold walk_spec, spec_text_p.
+          destruct (fvalw o f x) as [e|e|cc]; [|reflexivity|reflexivity].
+          destruct (jexp_finite e); [|reflexivity].
+          destruct (negb (id =? 0)).
+          -- rewrite walk_unsets_c_ok. destruct (unset_walk_bm o (sort_flds fs) (bm_clear id bm)) as [us|]; [|reflexivity].
+             cbn [xtext]. rewrite app_nil_r. reflexivity.
+          -- rewrite IH by (try exact HF'; cbn in Hfuel; lia).
+             destruct (xwalk fs vs (bm_clear id bm)) as [ms|e' us|]; cbn [xtext]; try reflexivity.
+             rewrite <- obj_tail_cons. reflexivity.
+      + destruct (o_disallow_unknown o); [reflexivity|].
+        rewrite Hx. apply IH; [exact HF'|cbn in Hfuel; lia].
+  Qed.
+End ExcLoop.
+
+(* do under ConvertException on the encoding of a conforming struct: the text is that of [xwalk] *)
+Theorem walk_rootx_refines_partial fd o fs vs n r : o_convert_exception o = true ->
+  wf (VStruct vs) = true -> conforms (VStruct vs) (DStruct fs) = true -> desc_wf (DStruct fs) = true -> base_is_struct (DStruct fs) ->
+  (depth (VStruct vs) <= S n)%nat -> (depth (VStruct vs) <= max_skip_depth)%nat ->
+  t2j_walk_rootx fd o (S n) (DStruct fs) (encode (VStruct vs) ++ r) =
+  match xwalk o (root_bx o) fs vs (bm_init fs) with
+  | XObj ms => Some (WText (jexp_print fd (EObj ms)))
+  | XExc e us => Some (WExc (jexp_print fd e ++ obj_mems fd true us))
+  | XErr => None
+  end.
+Proof.
+  intros Hce Hw Hc Hdw Hbs Hd Hs. cbn [depth] in Hd. apply le_S_n in Hd.
+  cbn [t2j_walk_rootx]. rewrite Hce. cbn [encode]. rewrite <- app_assoc. cbn [app].
+  rewrite (walk_fields_x_ok fd o (t2j_walk_gen fd o n) (root_bx o) fs vs).
+  - destruct (xwalk o (root_bx o) fs vs (bm_init fs)) as [ms|e us|]; cbn [xtext]; try reflexivity.
+    rewrite print_obj. reflexivity.
+  - apply (fields_obligations fd o (root_bx o) fs vs n); auto.
+    + intros f Hin Hb. apply (Hbs f Hin). unfold root_bx in Hb. apply andb_true_iff in Hb. exact (proj2 Hb).
+    + apply Forall_forall. intros f _. apply walk_refines_w.
+  - rewrite app_length. cbn [length].
+    pose proof (flat_map_length_ge (fun f : Z * tval => type_of (snd f) :: enc_int 2 (fst f) ++ encode (snd f)) vs
+      ltac:(intros; cbn [length]; lia)). lia.
+Qed.
+
+(* without ConvertException (or on a non-struct root) t2j_walk_rootx is t2j_walk_root *)
+Lemma walk_rootx_plain fd o n d bs : o_convert_exception o = false ->
+  t2j_walk_rootx fd o n d bs = match t2j_walk_root fd o n d bs with Some (t, _) => Some (WText t) | None => None end.
+Proof. intros Hce. unfold t2j_walk_rootx. destruct d; try reflexivity. destruct n; [reflexivity|]. rewrite Hce. reflexivity. Qed.
